@@ -486,6 +486,16 @@ def table(tier="quick"):
     return T
 
 
+PROX_CALLS = {
+    "nonneg": lambda P, v, par, k: P.proximal_operator(v, non_negative=True), "soft": lambda P, v, par, k: P.soft_thresholding(v, par),
+    "l1": lambda P, v, par, k: P.proximal_operator(v, l1_reg=par), "l2": lambda P, v, par, k: P.l2_prox(v, par), "l2sq": lambda P, v, par, k: P.l2_square_prox(v, par),
+    "smooth": lambda P, v, par, k: P.smoothness_prox(v, par), "simplex": lambda P, v, par, k: P.simplex_prox(v, par), "softsparse": lambda P, v, par, k: P.soft_sparsity_prox(v, par),
+    "monotone": lambda P, v, par, k: P.monotonicity_prox(v), "monotone_dec": lambda P, v, par, k: P.monotonicity_prox(v, decreasing=True),
+    "unimodal": lambda P, v, par, k: P.unimodality_prox(v), "hardsparse": lambda P, v, par, k: P.hard_thresholding(v, k),
+    "normsparse": lambda P, v, par, k: P.normalized_sparsity_prox(v, k), "normalize": lambda P, v, par, k: P.proximal_operator(v, normalize=True),
+    "svt": lambda P, v, par, k: P.svd_thresholding(v, par), "procrustes": lambda P, v, par, k: P.procrustes(v)}
+
+
 def random_rows(rng, n):
     """option-lattice sampling: random combinations of initialisation x mask dtype x normalisation x line search x sparsity x
     l2 x orthogonalise x errors x constraint kind x shape/order for the entry points with transcribed skeletons (the
@@ -502,7 +512,8 @@ def random_rows(rng, n):
                          slotmap=slotmap or {}, lenient=True))
     shapes = [(4, 3), (3, 4, 2), (4, 3, 5), (2, 3, 2, 3)]
     for i in range(n):
-        kind = rng.choice(["parafac", "parafac", "parafac", "nn_parafac", "tucker", "constrained", "admm", "nn_hals", "nn_tucker_hals"])
+        kind = rng.choice(["parafac", "parafac", "parafac", "nn_parafac", "tucker", "constrained", "admm", "nn_hals", "nn_tucker_hals",
+                           "parafac2", "parafac2", "prox", "prox"])
         sh = rng.choice(shapes)
         rank = rng.choice([1, 2, 3])
         init = rng.choice(["random", "svd", "user"])
@@ -578,6 +589,34 @@ def random_rows(rng, n):
                                                            return_errors=errors, random_state=1 + i)
             add(f"rnd{i}_nn_tucker_hals_{init_t}_{alg}_nz{int(norm)}_er{int(errors)}_{'x'.join(map(str, sh))}_r{rank}", "tensorly.decomposition.non_negative_tucker_hals",
                 build, "FNNTuckerHals", opts, None, [dt_real], real={"#1"})
+        elif kind == "parafac2":
+            init_p = rng.choice(["random", "svd"])
+            nn = rng.choice([None, None, [0], [0, 2], "all"])
+            ls = rng.random() < 0.5
+            nit = 9 if ls else rng.choice([1, 2, 3])
+            cols = rng.choice([3, 4])
+            rank_p = rng.choice([1, 2, 3])
+            nsl = rng.choice([2, 3, 4])
+            uneven = rng.random() < 0.6
+            opts = dict(init={"random": "IRandom", "svd": "ISvd"}[init_p], errors=errors, normalize=norm, linesearch=ls, nn=nn is not None)
+
+            def build(d, init_p=init_p, nn=nn, ls=ls, nit=nit, cols=cols, rank_p=rank_p, nsl=nsl, uneven=uneven, norm=norm, errors=errors, i=i):
+                sl = [d.arr(4 + (k if uneven else 0), cols) for k in range(nsl)]
+                return lambda: dec.parafac2(sl, rank_p, n_iter_max=nit, init=init_p, nn_modes=nn, linesearch=ls, normalize_factors=norm, return_errors=errors,
+                                            random_state=1 + i, n_iter_parafac=2, tol=1e-12)
+            add(f"rnd{i}_parafac2_{init_p}_nn{nn}_ls{int(ls)}_nz{int(norm)}_er{int(errors)}_{nsl}x{cols}_r{rank_p}_u{int(uneven)}".replace(" ", ""),
+                "tensorly.decomposition.parafac2", build, "FParafac2", opts, None, [dt_real], real={"#1"}, n=nit)
+        elif kind == "prox":
+            pname = rng.choice(sorted(PROX_CALLS))
+            shp = rng.choice([(5,), (1,), (4, 3), (4, 1), (1, 4), (6, 2), (2, 2)]) if pname not in ("svt", "procrustes") else rng.choice([(4, 3), (3, 4), (2, 2), (5, 1)])
+            par = rng.choice([0.01, 0.5, 2.0])
+            k = rng.choice([1, 2, 3])
+            pos = rng.random() < 0.5
+
+            def build(d, pname=pname, shp=shp, par=par, k=k, pos=pos):
+                v = d.arr(*shp, pos=pos)
+                return lambda: PROX_CALLS[pname](P, v, par, k)
+            add(f"rnd{i}_prox_{pname}_{'x'.join(map(str, shp))}_p{par}_k{k}_pos{int(pos)}", "tensorly.tenalg.proximal." + pname, build, "FProx", dict(prox=pname), None, [dt_real])
         elif kind == "constrained":
             cname, ckw = rng.choice(CONSTRAINTS)
             opts = dict(init={"random": "IRandom", "svd": "ISvd", "user": "IUser"}[init], prox=cname, errors=errors)
